@@ -219,13 +219,23 @@ func VerifC18Dot() {
 	fname := str(2, "func", "ma", "in")
 	file := str(3, "file", "fi", "le.go")
 	tagName := str(4, "tag", "k:v", "")
+	if where == 7 {
+		// a long label value with the metacharacters at any alignment (line wrapping, truncation)
+		pad := "k:" + "vvvvvvvvvvvvvvvvvvvvvvvvvv"[:19+vChoice("pad", 6)]
+		tagName = vMetaString("tag", pad, "tail", n)
+	}
 	numTagName := str(5, "numtag", "k", "")
 
+	objName := str(8, "objfile", "li", "b.so")
 	// the graph is built from a profile, as reports do
 	f1 := &profile.Function{ID: 1, Name: fname, Filename: file}
 	f2 := &profile.Function{ID: 2, Name: "leaf"}
 	l1 := &profile.Location{ID: 1, Line: []profile.Line{{Function: f1, Line: 3}}}
 	l2 := &profile.Location{ID: 2, Line: []profile.Line{{Function: f2}}}
+	if where == 8 {
+		// an unsymbolized frame: the node is named after its binary
+		l2 = &profile.Location{ID: 2, Address: 0x40, Mapping: &profile.Mapping{ID: 1, File: "/usr/lib/" + objName}}
+	}
 	labelKey, labelVal := "k", "v"
 	if i := strings.IndexByte(tagName, ':'); i >= 0 {
 		labelKey, labelVal = tagName[:i], tagName[i+1:]
@@ -259,7 +269,7 @@ func VerifC18Dot() {
 	ComposeDot(&buf, g, &DotAttributes{}, cfg)
 	out := buf.String()
 	vReach("C18.dot:composed")
-	sites := []string{"graph title", "legend line", "function name", "file name", "label value", "numeric label unit", "(cancelling label weights)"}
+	sites := []string{"graph title", "legend line", "function name", "file name", "label value", "numeric label unit", "(cancelling label weights)", "long label value", "binary name of an unsymbolized frame"}
 	toks, ok := vDotLex(out)
 	if !ok {
 		vAssert(false, "C18.dot.lex."+strconv.Itoa(where)+": DOT output does not tokenize (unterminated string or stray character) with metacharacters in the "+sites[where])
